@@ -213,21 +213,29 @@ theorem C15_exchange (s : Stream) (frame : Bytes) (expect : Bool) (s' : Stream) 
       | true =>
         simp only [Bool.not_true, Bool.false_eq_true, if_false] at h
         refine ⟨⟨s1, hacc, ?_⟩, fun hh => by cases hh⟩
-        cases hr1 : readExact 5 s1 4 [] with
-        | mk s2 r2 =>
-          cases r2 with
-          | error e => simp [hr1] at h
-          | ok szb =>
-            simp only [hr1] at h
-            split at h
-            · simp at h
-            · cases hr3 : readExact ((decI szb).toNat + 1) s2 (decI szb).toNat [] with
-              | mk s3 r3 =>
-                cases r3 with
-                | error e => simp [hr3] at h
-                | ok payload =>
-                  simp [hr3] at h
-                  rw [← h.1, racc _ _ _ _ _ _ hr3, racc _ _ _ _ _ _ hr1]
+        have gacc : ∀ (a a' : Stream) (x : Except Err Bytes), getResponse a = (a', x) → a'.accepted = a.accepted := by
+          intro a a' x hg
+          unfold getResponse at hg
+          cases hr1 : readExact 5 a 4 [] with
+          | mk s2 r2 =>
+            cases r2 with
+            | error e => simp [hr1] at hg; rw [← hg.1, racc _ _ _ _ _ _ hr1]
+            | ok szb =>
+              simp only [hr1] at hg
+              split at hg
+              · simp at hg; rw [← hg.1, racc _ _ _ _ _ _ hr1]
+              · cases hr3 : readExact ((decI szb).toNat + 1) s2 (decI szb).toNat [] with
+                | mk s3 r3 =>
+                  cases r3 with
+                  | error e => simp [hr3] at hg; rw [← hg.1, racc _ _ _ _ _ _ hr3, racc _ _ _ _ _ _ hr1]
+                  | ok payload => simp [hr3] at hg; rw [← hg.1, racc _ _ _ _ _ _ hr3, racc _ _ _ _ _ _ hr1]
+        cases hg : getResponse s1 with
+        | mk s3 r3 =>
+          cases r3 with
+          | error e => simp [hg] at h
+          | ok payload =>
+            simp [hg] at h
+            rw [← h.1, gacc _ _ _ hg]
 
 theorem getConn_recv {σ} (env : Env σ) (recv' : σ → Bytes → σ × Except Err Bytes) (host : Bytes) :
     getConn { env with recv := recv' } host = getConn env host := rfl
@@ -261,8 +269,8 @@ theorem C15_noack {σ} (env : Env σ) (recv' : σ → Bytes → σ × Except Err
 
 /-- **a failed exchange poisons the connection, not the next call**: after any read or write failure the host is
     marked broken, and the next checkout replaces the connection instead of reusing it (its late reply dies with it) -/
-theorem C15_failure_marks_broken {σ} (env : Env σ) (host : Bytes) (w : W σ) (e : Err) (wd : σ)
-    (h : env.recv w.world host = (wd, .error e)) : host ∈ (recvReply env host w).1.client.broken := by
+theorem C15_failure_marks_broken {σ} (env : Env σ) (host : Bytes) (w : W σ) (wd : σ)
+    (h : env.recv w.world host = (wd, .error .io)) : host ∈ (recvReply env host w).1.client.broken := by
   simp [recvReply, h]
 
 theorem C15_broken_replaced {σ} (env : Env σ) (host : Bytes) (w : W σ) (hp : host ∈ w.client.conns) (hb : host ∈ w.client.broken)
